@@ -388,6 +388,9 @@ POST_GENERIC = [
     Rule(r'\bmake_(unsigned|signed)_t<(\w+)>', lambda mo: '%s_OF(%s)' % (mo.group(1).upper(), mo.group(2)), regex=True),
     Rule(r'\bbits_for_type<(\w+)>', r'((uint8_t)(sizeof(\1) << 3))', regex=True),
     Rule(r'\bis_(unsigned|signed)_v<(\w+)>', lambda mo: 'IS_%s(%s)' % (mo.group(1).upper(), mo.group(2)), regex=True),
+    # std::min<T>(a, b) / std::max<T>(a, b) with an explicit template argument (both operands converted to T; operands are evaluated twice by
+    # the macro, so only side-effect-free operands are meaning-preserving -- the extracted code has no others at these call sites)
+    Rule(r'(?<![\w.>])(min|max)<([\w ]+)>\(', lambda mo: 'VERIF_%s_T(%s, ' % (mo.group(1).upper(), mo.group(2)), regex=True),
 ]
 
 RESIDUE = [
